@@ -49,6 +49,8 @@ SPECIALS = {
     "shared-leaf": ("import dataclasses, typing\n@dataclasses.dataclass\nclass A:\n    x: int\n@dataclasses.dataclass\nclass B:\n    a1: A\n    a2: A\n    l: list[A]\n"
                     "    t: tuple[int | None, int | None, list[int | None]]\n", ["B", "A"]),
     "alias-string": ("import typing\nfrom typelib.py import compat\nTree = compat.TypeAliasType('Tree', 'dict[str, Tree]')\nclass H:\n    t: Tree\n", ["H", "Tree"]),
+    "alias-mutual": ("import typing\ntype PA = QA | None\ntype QA = list[PA] | int\nclass H:\n    p: PA\n", ["PA", "QA", "H"]),
+    "alias-union-plain": ("import typing\nfrom typelib.py import compat\nIA = compat.TypeAliasType('IA', typing.Union[int, str])\nclass H:\n    a: typing.Optional[IA]\n    b: typing.Optional[IA]\n", ["H", "IA"]),
     "alias-value": ("import typing\nfrom typelib.py import compat\nIntList = compat.TypeAliasType('IntList', list[int])\nclass H:\n    a: IntList\n    b: IntList\n", ["H", "IntList"]),
 }
 
@@ -248,8 +250,14 @@ def check_assumptions():
     from typelib.py import inspection
     bad = []
     seen = list(inspection.STDLIB_TYPES) + pool_cases() + [int | None, typing.Optional[int], int | str, typing.Union[int, str, None]]
+    # unions reached through aliases (an alias-valued member is what it stands for)
+    ns = {}
+    exec("type PA = QA | None\ntype QA = list[PA] | int\ntype IA = int | str\ntype OA = IA | None\ntype LA = list[int]\ntype ULA = LA | None", ns)
+    seen += [ns[k] for k in ("PA", "QA", "IA", "OA", "LA", "ULA")] + [typing.Optional[ns["IA"]], typing.Optional[ns["LA"]], ns["QA"] | None]
+    from props.concrete_util import clear_typelib_caches
     for t in seen:
         try:
+            clear_typelib_caches()          # cold answers: memoised predicates keyed by typing's equality must not leak between entries
             u = inspection.unwrap(t)
             if u is None and t is not None:
                 bad.append(f"unwrap({t!r}) is None")
